@@ -33,6 +33,8 @@ FLAVOURS = {
     "ann_dict": ("AnnD", {"alias": "AnnD", "exact": "Dict[str, int]", "origin": "dict"}, "{'a': 1}", "{'b': 2}"),
     "ann_date": ("AnnDate", {"alias": "AnnDate", "exact": "datetime.date"}, "datetime.date(2020, 1, 2)", "'2020-01-02'"),
     "plain_list": ("List[int]", {"exact": "List[int]", "origin": "list"}, "[1, 2]", "[3]"),
+    # a nullable member: the field's own options (engine names included) belong to the value inside the Optional
+    "opt_date": ("Optional[datetime.date]", {"exact": "datetime.date"}, "datetime.date(2020, 1, 2)", "'2020-01-02'"),
     # Annotated with UNHASHABLE metadata: the alias itself cannot be a key, the exact type and the origin still are
     "ann_unhashable": ("Annotated[List[int], {'note': ['x']}]", {"exact": "List[int]", "origin": "list"}, "[1, 2]", "[3]"),
     "ann_unhashable_date": ("Annotated[datetime.date, ['meta']]", {"exact": "datetime.date"}, "datetime.date(2020, 1, 2)", "'2020-01-02'"),
@@ -107,7 +109,7 @@ def strategy_src(tag, style):
 
 
 ENGINES = {"eng_ciso": "ciso8601", "eng_pend": "pendulum"}
-DATE_FLAVOURS = ("ann_date", "ann_unhashable_date", "in_list", "in_ann_list", "in_ann_optional", "in_dict")
+DATE_FLAVOURS = ("ann_date", "ann_unhashable_date", "opt_date", "in_list", "in_ann_list", "in_ann_optional", "in_dict")
 ENGINE_WIRE = "2020-01"      # accepted by both engines (first of the month), rejected by date.fromisoformat
 
 
@@ -173,7 +175,8 @@ def run_case(seed, tier, rec, st):
         lines = ["class CallD(Dialect):", f"    serialization_strategy = {reg('call')}",
                  "class CfgD(Dialect):", f"    serialization_strategy = {reg('cfgd')}",
                  "class DD(Dialect):", f"    serialization_strategy = {reg('dd')}",
-                 "@dataclass", "class M(" + ("DataClassMessagePackMixin" if entry == "format" else "DataClassDictMixin" if entry not in ("codec", "format-codec") else "") + "):"]
+                 "@dataclass", "class M(" + ("DataClassMessagePackMixin" if entry == "format" else "DataClassDictMixin" if entry not in ("codec", "format-codec") else
+                                               rng.choice(["", "", "DataClassDictMixin", "DataClassMessagePackMixin"])) + "):"]
         lines[-1] = lines[-1].replace("()", "")
         fargs = [f"default_factory=lambda: {val_src}"]
         if meta:
@@ -188,6 +191,10 @@ def run_case(seed, tier, rec, st):
             lines += ["@dataclass", "class B1(B0):", f"    x: {ann} = field({', '.join(fargs)})", "@dataclass", "class M(B1):"]
         else:
             lines.append(f"    x: {ann} = field({', '.join(fargs)})")
+        self_child = entry == "mixin" and not three_levels and rng.random() < 0.3
+        if self_child:
+            # the same class one level down, through a Self-typed member: every level of customization applies there too
+            lines.append("    nxt: Optional[Self] = None")
         lines.append("    class Config(BaseConfig):")
         lines.append(f"        serialization_strategy = {reg('cfgs')}")
         lines.append("        code_generation_options = [ADD_DIALECT_SUPPORT]")
@@ -200,7 +207,7 @@ def run_case(seed, tier, rec, st):
                       "    class Config(BaseConfig):", "        code_generation_options = [ADD_DIALECT_SUPPORT]"]
         src = "\n".join(lines) + "\n"
         det = lambda **kw: dict({"source": src, "entry": entry, "enabled": [f"{s}:{k}" for s, k in enabled]}, **kw)
-        facts = {"entry": entry, "flavour": flavour, "three_levels": three_levels}
+        facts = {"entry": entry, "flavour": flavour, "three_levels": three_levels, "self_child": self_child}
         try:
             fam.exec_src(src)
         except Exception as e:
@@ -269,14 +276,18 @@ def run_case(seed, tier, rec, st):
             try:
                 if direction == "S":
                     obj = M(x=value)
-                    if entry == "mixin":
+                    if entry == "mixin" and self_child:
+                        out = M(x=eval(val_src, mod.__dict__), nxt=obj).to_dict(**kw)["nxt"]["x"]
+                    elif entry == "mixin":
                         out = obj.to_dict(**kw)["x"]
                     elif entry == "nested":
                         out = mod.Outer(inner=obj).to_dict(**kw)["inner"]["x"]
                     else:
                         out = BasicEncoder(M, default_dialect=mod.DD).encode(obj)["x"]
                 else:
-                    if entry == "mixin":
+                    if entry == "mixin" and self_child:
+                        out = M.from_dict({"x": eval(wire_src, mod.__dict__), "nxt": {"x": wire}}, **kw).nxt.x
+                    elif entry == "mixin":
                         out = M.from_dict({"x": wire}, **kw).x
                     elif entry == "nested":
                         out = mod.Outer.from_dict({"inner": {"x": wire}}, **kw).inner.x
@@ -384,7 +395,7 @@ def format_entry(rec, rng, mod, M, kw, winner, styles, value, wire, det, facts, 
 
 def builtin(flavour, direction, given):
     import datetime
-    if flavour in ("ann_date", "ann_unhashable_date") or flavour in WRAP:
+    if flavour in ("ann_date", "ann_unhashable_date", "opt_date") or flavour in WRAP:
         return given.isoformat() if direction == "S" else datetime.date.fromisoformat(given)
     if flavour == "ann_dict":
         return dict(given)
